@@ -43,6 +43,14 @@ CHECKS = {
          "Concurrent histories on the real ctree.Tree recorded at the harness boundary (atomic tick clock, unique values): per-path linearizability of Add/Get/Query/Delete/handle-update against a register-with-absence model incl. quiescent final reads (porcupine, partitioned), whole-tree linearizability of small histories with prefix conflicts and subtree/wildcard/conditional deletes (porcupine, unpartitioned), an interval checker for Query/Walk/WalkSorted (present-throughout => reported, absent-throughout => not reported, values were written, no duplicates, sorted), a forced reader->writer upgrade window every third trial, and the race detector over a hostile all-operations workload; any race report whose access site is in ctree/tree.go is a violation.",
          "Schedules explored by perturbation/gating and GOMAXPROCS variation, not enumerated; handle updates only on paths not deleted in that trial (detached-handle updates are unspecified); porcupine timeout => inconclusive.",
          "3/C10"),
+ "C07": ("trace-specification monitor (safety on Send) plus twin and cache differential for completeness",
+         "Every response passed to Send on thousands of in-memory Subscribe streams per run is judged online against a scripted user x target ACL while writers update, delete, Reset and Remove/re-Add allowed and denied targets (snapshot updates, streamed updates, deletes, Reset deletes and target-removal deletes are judged separately and all must have been exercised). Denied single-target calls must be silent with PermissionDenied (NotFound accepted only when a Remove overlapped the call); calls whose NewRPCACL fails must be silent with Unauthenticated. Authorised data must still arrive: replay equals the cache restricted to the allowed targets and equals an unrestricted twin's log at logical quiescence, and on a static cache for ONCE and POLL. Held on the executions produced (seeded workloads, schedule perturbation at 7 points, GOMAXPROCS 2/4/16).",
+         "ACL table constant within a trial; one writer per target; trusted: vlib.Stream, model.Shadow/Compat, C04's sentinel quiescence protocol; sync placement, value order and POLL round counts belong to C04/C05.",
+         "3/C07"),
+ "C11": ("model differential (exhaustive and random) plus a concurrent history monitor with gated schedule points",
+         "Every sequence of up to 7 (thorough 8) Insert/Next/Close/Len/IsClosed operations and 20k-200k longer seeded histories are checked result by result against a reference model of the coalescing queue. 5k-40k concurrent trials with several producers and one consumer (call/return ticks at the harness boundary) plus 8k-48k forced-window trials gated at the two coalesce schedule points are judged on exact conservation per item (B <= sum(1+dups) <= A), real-time order of first insertions, refusal after Close, closed reported only after everything owed was delivered, and bounded wake-up after insert, close and cancel. Held = held on those executions.",
+         "One consumer at a time; an Insert overlapping Close may be accepted and never delivered; wake-up judged as bounded progress (10 s grace, attributable stuck only); schedules perturbed at two hook points and by GOMAXPROCS, not enumerated; race workers (thorough) are diagnostic only.",
+         "3/C11"),
  "C13": ("online trace-grammar monitor (per-target state machine) over the real manager + connection manager against a scripted bufconn gNMI server with fault scripts",
          "The real manager.Manager over the real connection.Manager talks to a scripted gNMI server on bufconn: per target 3-8 sessions of 0-20 numbered messages ending in error / EOF / silence, dial refusals, receive timeouts, forced Reconnect and Remove+re-Add at seeded message indexes and during backoff, duplicate Add and unknown Remove/Reconnect. Every callback, connection attempt and stream opening feeds an online state machine: Connect only after the first message of a new stream, deliveries only in session and an in-order prefix of what that stream carried, exactly one Reset per ended stream before the next stream, backoff between attempts (one-sided), bounded retry progress, and no event after Remove returned.",
          "Retry delays 20/40 ms; liveness restated as bounded progress (40 s grace, attributed by goroutine dump); silence observed for a 60 ms settling window; spurious reconnects tolerated as the statement allows.",
